@@ -23,3 +23,9 @@ claim("C13",
 claim("C19",
  "Partial. Proved: integer width handling of the optdec functors (range checks per width, exact narrowing, unsigned/signed boundary at MaxInt64, AsByte), ParseU64 against strconv; alg.IsValidNumber safety.",
  "Float parsing/printing and integer accumulation are native code (not reached); JIT range-check emission parameters not yet covered.")
+claim("C09",
+ "Partial. Proved for the type-keyed program cache: a hit of _ProgramMap.get returns the codec stored under exactly that type identity (pointer), never one stored under an equal hash or name; insert fills exactly one previously empty slot, leaves every other binding unchanged and cannot reach its 'no available slots' panic when a free slot exists (full probe coverage, mask arithmetic lemma proved in bit-vector mode); copy is a structurally equal fresh map and leaves the published map untouched.",
+ "Completeness of get (a present key is found: needs the probe-chain invariant), rehash/add (need a counting invariant), batch loading (loader) and the encoder cache key are not yet under contract; the number of cached types is assumed < 2^30; x & m == x mod (m+1) for masks is an int-mode axiom backed by a bv-mode lemma.")
+claim("C17",
+ "Proved: StreamDecoder keeps its buffer equal to the most recent bytes delivered by the Reader, in order, for every chunking (empty reads, short reads, data+error) through scan/realloc/refill/peek/More/readMore/Decode; errors are sticky; a successful Decode strictly advances InputOffset; the decoded text never aliases the read buffer; positions and slices stay in range. StreamEncoder.Encode delivers exactly the encoder's bytes plus the optional newline under short writes and returns the first Writer error including the newline's.",
+ "Reader/Writer are nondeterministic assumed contracts (io.Reader/io.Writer, total stream < 2^62 bytes); native skip_one_fast and the decoder core are assumed contracts; value framing against the whole remaining input (a number cut at the end of the buffered prefix) and the EOF/ErrUnexpectedEOF classification are NOT decided (see DESIGN section 8).")
